@@ -171,7 +171,7 @@ impl<'a, W: Write> Prettifier<'a, W> {
 
     fn write_tree(&mut self, root: &'a SimpleTerm<'a>) -> io::Result<()> {
         self.write_newline()?;
-        self.write_term(root)?;
+        self.write_node(root)?;
         self.write_properties(root)?;
         self.write_bytes(b".\n")?;
         Ok(())
@@ -252,7 +252,7 @@ impl<'a, W: Write> Prettifier<'a, W> {
         predicate: &'a SimpleTerm<'a>,
         object: &'a SimpleTerm<'a>,
     ) -> io::Result<()> {
-        self.write_term(object)?;
+        self.write_node(object)?;
         let tr = SimpleTerm::Triple(Box::new([
             subject.clone(),
             predicate.clone(),
@@ -290,10 +290,17 @@ impl<'a, W: Write> Prettifier<'a, W> {
         }
     }
 
-    fn write_iri(&mut self, iri: &IriRef<MownStr>) -> io::Result<()> {
-        if rdf::nil == iri {
-            return self.write_bytes(b"()");
+    /// Write a term in subject, object or collection-item position,
+    /// the only places where the grammar allows `()` for `rdf:nil`.
+    fn write_node(&mut self, term: &'a SimpleTerm<'a>) -> io::Result<()> {
+        if rdf::nil == term {
+            self.write_bytes(b"()")
+        } else {
+            self.write_term(term)
         }
+    }
+
+    fn write_iri(&mut self, iri: &IriRef<MownStr>) -> io::Result<()> {
         let Some(iri) = Iri::new(iri.as_str()).ok() else {
             return write!(self.write, "<{}>", iri.as_str());
         };
@@ -317,7 +324,7 @@ impl<'a, W: Write> Prettifier<'a, W> {
             self.indent();
             for item in items {
                 self.write_newline()?;
-                self.write_term(item)?;
+                self.write_node(item)?;
             }
             self.unindent();
             self.write_newline()?;
